@@ -350,9 +350,17 @@ class State:
         for c in o.constraints():
             if self.entails(c, 3):
                 r.add(c)
-        for k in set(self.condfacts) & set(o.condfacts):
-            a, b = self.condfacts[k], o.condfacts[k]
-            r.condfacts[k] = [l for l in a if any(l.norm() == m.norm() for m in b)]
+        for k in set(self.condfacts) | set(o.condfacts):
+            a, b = self.condfacts.get(k), o.condfacts.get(k)
+            if a is not None and b is not None:
+                r.condfacts[k] = [l for l in a if any(l.norm() == m.norm() for m in b)]
+            else:
+                # one side knows "k != NULL => facts", the other side has no such knowledge: the conditional fact survives
+                # if the other side entails the facts unconditionally
+                have, other = (a, o) if a is not None else (b, self)
+                keep = [l for l in have if other.entails(l, 3)]
+                if keep:
+                    r.condfacts[k] = keep
         r.cong = self.cong_join(o)
         # two-point lines: variables that are exact points (v = base + c) in both states with different offsets
         pts = []
